@@ -26,7 +26,9 @@ PROPS["C01"]["level_text"] += " " + (
     "are untouched, every non-zero count stays non-zero (C17 optimize_keep), so MBOK and the three Covers survive (rewritten_histograms_wellformed); optimize_histograms_total - "
     "BrotliOptimizeHistograms always returns on such a split (none of the six loops of BrotliOptimizeHuffmanCountsForRle leaves the histogram or the 704-byte good_for_rle buffer); "
     "greedy_optimized_roundtrip - the pipeline of encode.rs at quality 4..9: BrotliBuildMetaBlockGreedy, BrotliOptimizeHistograms(alphabet_size, mb), BrotliStoreMetaBlock - none of the three "
-    "panics and the general RFC reader reads the bits back to what replayCommands produces from the commands."
+    "panics and the general RFC reader reads the bits back to what replayCommands produces from the commands. greedy_block_lengths - every block of the split records at least "
+    "min_block_size (512 / 1024 / 512) symbols and the lengths of a category sum to its symbol count plus a padding of at most min_block_size in the last block (the final FinishBlock raises a "
+    "short or empty last block to min_block_size: the lengths do NOT sum to the symbol count)."
 )
 PROPS["C01"]["level_note"] += " " + (
     "Greedy builder: one Lean definition covers BlockSplitter and ContextBlockSplitter (the four places where the two Rust functions differ are explicit `if plain`); "
